@@ -541,6 +541,9 @@ pub fn enabled(m: &Model) -> Vec<Op> {
 pub struct Real {
     pub slots: Vec<*mut Value>,
     pub filter: *mut Filter,
+    /// false: the error message is never fetched between calls (a caller that only checks the
+    /// sentinels); a pending message must not change what later calls do
+    pub drain: bool,
 }
 
 fn cs(b: &[u8]) -> CString {
@@ -604,7 +607,7 @@ fn rt(r: ResultType) -> i32 {
 
 impl Real {
     pub fn new() -> Real {
-        Real { slots: vec![std::ptr::null_mut(); SLOTS], filter: std::ptr::null_mut() }
+        Real { slots: vec![std::ptr::null_mut(); SLOTS], filter: std::ptr::null_mut(), drain: true }
     }
 
     /// run the real constructor; null = failure
@@ -642,7 +645,9 @@ impl Real {
     /// execute the operation on the real API and compare its return value (and borrowed value)
     /// with the model's expectation
     pub unsafe fn step(&mut self, op: &Op, want: &Expect) -> Result<(), String> {
-        let _ = take_error();
+        if self.drain {
+            let _ = take_error();
+        }
         let name = format!("{op:?}");
         let got: i32 = match op {
             Op::Make(s, c) => {
@@ -717,7 +722,11 @@ impl Real {
             let e = take_error();
             return Err(format!("{name}: returned {got}, the Rust operation gives {want_code} (error message: {e:?})"));
         }
-        check_error(got == -1, &name)
+        if self.drain {
+            check_error(got == -1, &name)
+        } else {
+            Ok(())
+        }
     }
 
     /// destroy every live handle exactly once (end of a protocol-respecting history)
@@ -1288,6 +1297,79 @@ pub unsafe fn borrow_sweep() -> Result<u64, String> {
                     return Err(format!("the entry pointer of dict key {:?} no longer points at it after read-only calls: {:?}", String::from_utf8_lossy(keys[i]), **p));
                 }
             }
+        }
+        // borrowed pointers fed back into the API: "append a copy of the first element" etc. The
+        // container is alive and unmodified when the call starts, so this is inside the protocol;
+        // the list grows past several capacities
+        {
+            let l2 = opt_box(haystack_value_from_zinc_string(cs(b"[\"entry number 0\",{k:[1,2,3]},3]").as_ptr()));
+            let d2 = opt_box(haystack_value_from_zinc_string(cs(b"{a:\"entry a\",b:{k:[1,2,3]}}").as_ptr()));
+            let mut model: Vec<Value> = match &*l2 {
+                Value::List(l) => l.clone(),
+                _ => vec![],
+            };
+            let mut verdict: Result<(), String> = Ok(());
+            for round in 0..40usize {
+                let idx = round % model.len();
+                let mut p: *const Value = std::ptr::null();
+                if haystack_value_get_list_entry_at(l2, idx, &mut p) != ResultType::TRUE {
+                    verdict = Err("get_list_entry_at failed".into());
+                    break;
+                }
+                calls += 2;
+                let expect = model[idx].clone();
+                match round % 3 {
+                    0 => {
+                        if haystack_value_push_list_entry(l2, p) != ResultType::TRUE {
+                            verdict = Err("push_list_entry(list, borrowed entry of the same list) failed".into());
+                            break;
+                        }
+                        model.push(expect);
+                    }
+                    1 => {
+                        // twice in a row from the same borrowed pointer is NOT allowed (the first
+                        // push modified the container): borrow again
+                        if haystack_value_push_list_entry(l2, p) != ResultType::TRUE {
+                            verdict = Err("push_list_entry(list, borrowed entry of the same list) failed".into());
+                            break;
+                        }
+                        model.push(expect.clone());
+                        let mut p2: *const Value = std::ptr::null();
+                        let _ = haystack_value_get_list_entry_at(l2, model.len() - 1, &mut p2);
+                        let _ = haystack_value_push_list_entry(l2, p2);
+                        model.push(expect);
+                    }
+                    _ => {
+                        let key = cs(format!("k{round}").as_bytes());
+                        if haystack_value_insert_dict_entry(d2, key.as_ptr(), p) != ResultType::TRUE {
+                            verdict = Err("insert_dict_entry(dict, key, borrowed list entry) failed".into());
+                            break;
+                        }
+                        let mut q: *const Value = std::ptr::null();
+                        if haystack_value_get_dict_entry(d2, cs(b"b").as_ptr(), &mut q) == ResultType::TRUE {
+                            // a borrowed dict entry into the same dict under a new key
+                            let key2 = cs(format!("c{round}").as_bytes());
+                            let _ = haystack_value_insert_dict_entry(d2, key2.as_ptr(), q);
+                            let _ = haystack_value_push_list_entry(l2, q);
+                            model.push(match &*d2 {
+                                Value::Dict(d) => d.get("b").cloned().unwrap_or_default(),
+                                _ => Value::default(),
+                            });
+                        }
+                    }
+                }
+                match &*l2 {
+                    Value::List(l) if *l == model => {}
+                    other => {
+                        verdict = Err(format!("after feeding a borrowed entry back into its list (round {round}) the list is {:?}, expected {:?}", other, model).chars().take(700).collect());
+                        break;
+                    }
+                }
+            }
+            haystack_value_destroy(l2);
+            haystack_value_destroy(d2);
+            let _ = take_error();
+            verdict?;
         }
         // scalar string getters twice
         let s = opt_box(haystack_value_from_zinc_string(cs(b"[\"str\",`uri`,@ref \"dis\",^sym,Bin(\"x\"),5kW,2021-07-01T12:00:00-04:00 New_York,\"\"]").as_ptr()));
